@@ -14,6 +14,17 @@
 
 use std::{cell::RefCell, future::Future, pin::Pin, rc::Rc, time::Duration};
 
+/// Observation only: the context id behind an address (lets a harness tell
+/// which actor instance an `Addr` obtained from the registry points to).
+pub fn addr_id<A>(addr: &crate::Addr<A>) -> u64 {
+    addr.context_id.to_string().parse().unwrap_or(u64::MAX)
+}
+
+/// Observation only: the id of an actor's own context.
+pub fn ctx_id<A>(ctx: &crate::Context<A>) -> u64 {
+    ctx.id.to_string().parse().unwrap_or(u64::MAX)
+}
+
 pub type BoxFut = Pin<Box<dyn Future<Output = ()> + Send + 'static>>;
 
 /// Which of hannibal's two spawn sites created a task.
